@@ -92,6 +92,8 @@ func runC01(c *Ctx) {
 		c.Floor("C01.request-private/stores-into-clones", nOwn, 1)
 		_ = nForeign
 	}
+	c.Rule("C01.registration-kept", "a client's registration with the change feed survives the end of other clients' streams: removeQuery prunes a node only when it holds neither clients nor children (otherwise the relay to the remaining clients silently stops)")
+	removeQueryPrune(c, "C01.registration-kept")
 	c.Borrow("C13", map[string]string{"C13.session": "C01.relay-session"}, "every ended stream must reset the target's cache state before the next session, or leaves that vanished during the gap stay in the cache and in every client")
 	// ---- reg
 	{
